@@ -101,12 +101,10 @@ func registerChainCheck(d chainCheckDef) {
 			envs := []EnvCfg{defaultEnv()}
 			if c.Tier == "thorough" {
 				depth = d.depth[1]
-				mid := defaultEnv()
-				mid.FeatureHeight = 4 // features activate inside the explored history
-				envs = append(envs, mid)
+				envs = append(envs, crossingEnv())
 			}
 			c.Rule = d.rule + " Explicit-state BFS over the real PocketCoreApp: one transition = one block (InitChain, then BeginBlock/DeliverTx/EndBlock/Commit with the block store and tx indexer fed as Tendermint would) chosen from the menu; states merged on the raw content of all consensus stores + height + block time + indexed tx set + reported validator set; invariants are evaluated on the state reached by every transition. Non-trivial = state reached through at least one successful transaction or validator-set change"
-			c.Assume("3 warm-up blocks carry the chain past the codec/validator-split/feature heights (1,2,2) and give the genesis nodes their output address and reward delegators; explored histories start at height 4")
+			c.Assume("the chain starts right above height 80000 (empty multistore continued from that version) so that every height-gated mainnet patch is active; one warm-up block stakes the two nodes with output address / reward delegators; the thorough tier adds an environment in which all named features activate inside the explored history")
 			c.Assume("each replica runs in a worker process with all process-globals reset; MemDB stands in for goleveldb")
 			done := ""
 			for i, env := range envs {
@@ -121,6 +119,15 @@ func registerChainCheck(d chainCheckDef) {
 	})
 }
 
+// crossingEnv: legacy genesis nodes, every named feature activates 3 blocks into the explored history.
+func crossingEnv() EnvCfg {
+	e := defaultEnv()
+	e.FeatureHeight = e.BaseHeight + 4
+	e.Setup = nil
+	e.Genesis = "legacy-nodes"
+	return e
+}
+
 func init() {
 	registerChainCheck(chainCheckDef{id: "C17", name: "supply", want: []string{"supply"}, depth: [2]int{3, 4},
 		menu: func() []BlockSpec { return concatMenus(menuSends()[:3], menuNodes(), menuApps(), menuGov(), menuEnv()) },
@@ -133,8 +140,16 @@ func init() {
 			return concatMenus(menuApps(), menuEnv()[:1], menuEnv()[4:5], []BlockSpec{blk(tx("send", "A2", "to", "module:application_staked_tokens_pool", "amount", "3"))})
 		},
 		rule: "Invariant: balance of the application staking pool == sum of staked tokens of all applications that are staked or unstaking, in every reachable state."})
-	registerChainCheck(chainCheckDef{id: "C21", name: "nodeindex", want: []string{"nodeindex"}, depth: [2]int{3, 5},
-		menu: func() []BlockSpec { return concatMenus(menuNodes(), menuEnv()) },
+	registerChainCheck(chainCheckDef{id: "C21", name: "nodeindex", want: []string{"nodeindex"}, depth: [2]int{4, 6},
+		menu: func() []BlockSpec {
+			return []BlockSpec{
+				blk(tx("node_unstake", "N1")), blk(tx("node_unstake", "N2")),
+				blk(tx("node_stake", "N3", "value", "1000000", "chains", "0001+0002")),
+				blk(tx("node_stake", "O1", "node", "N1", "value", "4000000", "output", "O1", "chains", "0002")),
+				blk(tx("node_unjail", "N2")),
+				{Absent: []string{"N2"}}, {Evidence: []string{"N1"}}, {TimeJump: 2}, {},
+			}
+		},
 		rule: "Invariant: staked-by-power index == staked unjailed nodes under their current power; per-chain index == staked nodes per declared chain; unstaking queue == unstaking nodes per completion time (as sets); waiting entries refer to existing staked nodes; in every reachable state."})
 	registerChainCheck(chainCheckDef{id: "C22", name: "valset", want: []string{"valset"}, depth: [2]int{3, 5},
 		menu: func() []BlockSpec { return concatMenus(menuNodes(), menuEnv(), menuGov()[3:]) },
